@@ -117,7 +117,7 @@ class Pred:
                     lo, hi = it[1]
                     if lo <= ord(ch) <= hi:
                         r = True
-                    elif self.icase and (lo <= ord(ch.lower()) <= hi or lo <= ord(ch.upper()[:1] or ch) <= hi):
+                    elif self.icase and any(len(x) == 1 and lo <= ord(x) <= hi for x in (ch.lower(), ch.upper())):
                         r = True
                 elif it[0] == "cat":
                     if _category(it[1], ch):
@@ -183,9 +183,14 @@ class NFA:
         self.sym[a].append((len(self.preds) - 1, b))
 
 
-def build(pattern: str, flags: int = 0) -> NFA:
-    tree = parse(pattern, flags)
-    fl = tree.state.flags
+def build(pattern, flags: int = 0, items=None) -> NFA:
+    """pattern: regex source; or pass items=<list of parsed items> with flags"""
+    if items is None:
+        tree = parse(pattern, flags)
+        fl = tree.state.flags
+    else:
+        tree = items
+        fl = flags
     icase = bool(fl & re.IGNORECASE)
     dotall = bool(fl & re.DOTALL)
     if fl & re.MULTILINE:
@@ -350,15 +355,23 @@ def _alphabet(nfas, thorough: bool):
     return out
 
 
-def included_in_prefix(pat_a: str, pat_b: str, thorough: bool = False, flags_a: int = 0, flags_b: int = 0):
+def included_in_prefix(pat_a, pat_b, thorough: bool = False, flags_a: int = 0, flags_b: int = 0,
+                       items_a=None, items_b=None, full: bool = False, allowed=None):
     """None if every string matched in full by A has a prefix matched by B
-    (i.e. re.match(B, s) succeeds); else a shortest counterexample string."""
-    A, B = build(pat_a, flags_a), build(pat_b, flags_b)
+    (i.e. re.match(B, s) succeeds); else a shortest counterexample string.
+    full=True: B must match the whole string (re.fullmatch).  allowed: optional
+    predicate restricting the alphabet of A's words."""
+    A, B = build(pat_a, flags_a, items_a), build(pat_b, flags_b, items_b)
     alpha = _alphabet([A, B], thorough)
+    if allowed is not None:
+        # split classes by the predicate using every sampled character again
+        alpha = _alphabet_restricted([A, B], thorough, allowed)
     a0 = _closure(A, {(A.start, None, None)})
     b0 = _closure(B, {(B.start, None, None)})
 
     def b_sat_now(bset) -> bool:
+        if full:
+            return False
         return any(q == B.accept and pend is None for q, pw, pend in bset)
 
     start = (a0, b0, b_sat_now(b0))
@@ -381,7 +394,7 @@ def included_in_prefix(pat_a: str, pat_b: str, thorough: bool = False, flags_a: 
                 nb, nsat = frozenset(), True
             else:
                 # B accepts a prefix ending here if an accept config's pending is satisfied by this next char
-                pre = any(q == B.accept and ((pend == "w" and is_w) or (pend == "nw" and not is_w)) for q, pw, pend in bset)
+                pre = (not full) and any(q == B.accept and ((pend == "w" and is_w) or (pend == "nw" and not is_w)) for q, pw, pend in bset)
                 nb = _step(B, bset, bits[1], is_w)
                 nsat = pre or b_sat_now(nb)
                 if nsat:
@@ -395,6 +408,21 @@ def included_in_prefix(pat_a: str, pat_b: str, thorough: bool = False, flags_a: 
 
 
 included_in_prefix.last_stats = {}
+
+
+def _alphabet_restricted(nfas, thorough: bool, allowed):
+    sample = set(chr(cp) for cp in range(0, 0x250))
+    for nfa in nfas:
+        for p in nfa.preds:
+            sample.update(p.chars())
+    universe = (chr(cp) for cp in range(sys.maxunicode + 1) if not (0xD800 <= cp <= 0xDFFF)) if thorough else sorted(sample)
+    classes: dict = {}
+    for ch in universe:
+        if not allowed(ch):
+            continue
+        sig = (_is_word(ch),) + tuple(tuple(p.test(ch) for p in nfa.preds) for nfa in nfas)
+        classes.setdefault(sig, ch)
+    return [(ch, sig[0], list(sig[1:])) for sig, ch in classes.items()]
 
 
 def find_alternative(items, pred):
